@@ -1245,10 +1245,11 @@ def check_c20(rep, tier, seed, wd, replay):
     import random
     r = random.Random(seed * 1000 + 20)
     nfiles = 200 if tier == "quick" else 600
+    nbig = 0 if tier == "quick" else 24          # files of up to 1000 chunks: implementation + oracle only (the list-based model is quadratic)
     files = []
-    for i in range(nfiles):
+    for i in range(nfiles + nbig):
         depth = r.randint(1, 8)
-        nchunks = r.randint(10, 60 if tier == "quick" else 1000)
+        nchunks = r.randint(10, 60 if tier == "quick" else 150) if i < nfiles else r.randint(400, 1000)
         # ranges with controlled overlap depth: `depth` interleaved lanes of disjoint ranges
         ranges = []
         lane_end = [0] * depth
@@ -1263,14 +1264,21 @@ def check_c20(rep, tier, seed, wd, replay):
         L = arrangement(r, nchunks, 4, None, overlap=ranges, empty_channel=False)
         data, info = mcapenc.build(L)
         rs = [(ci["start"], ci["end"]) for ci in info["chunk_indexes"]]
-        files.append({"id": "c20a%d" % i, "file": data, "ranges": rs, "maxov": max_overlap(rs), "depth": depth})
+        files.append({"id": "c20a%d" % i, "file": data, "ranges": rs, "maxov": max_overlap(rs), "depth": depth, "big": i >= nfiles})
     cases = []
     for f in files:
         for suf, ro in (("log", ["order:log"]), ("rev", ["order:rev"]), ("file", []), ("logf", ["order:log", "topics:" + b"/a".hex()]),
                         ("logw", ["order:log", "afternanos:%d" % (f["ranges"][len(f["ranges"]) // 3][0])])):
             cases.append({"id": f["id"] + "_" + suf, "file": f["file"], "ropts": ro, "ops": [["messages"]], "base": f, "order": suf})
-    go, model, nd = read_corr(rep, cases, wd, "c20")
-    st = {"reads": 0, "max_slots_seen": 0, "max_overlap_seen": 0}
+    go, model, nd = read_corr(rep, [c for c in cases if not c["base"]["big"]], wd, "c20")
+    bigc = [c for c in cases if c["base"]["big"]]
+    if bigc:
+        braw, bcr = cm.run_sharded(os.path.join(cm.BUILD, "impl"), "read", [(c["id"], cr.read_lines(c)) for c in bigc], wd, "c20big", timeout=3000)
+        for cmd, rc, err in bcr:
+            rep.add_violation("executor-crash", "%s exited %s: %s" % (cmd, rc, err), [], failing_input=False)
+        for c in bigc:
+            go[c["id"]] = cr.parse_read_obs(braw.get(c["id"], []))
+    st = {"reads": 0, "max_slots_seen": 0, "max_overlap_seen": 0, "big_files_oracle_only": len(bigc) // 5}
     for c in cases:
         g = go.get(c["id"])
         probs = []
@@ -1338,7 +1346,7 @@ def check_c20(rep, tier, seed, wd, replay):
                 rep.add_violation("oracle", "case %s: a sequential %s read of %s chunks of %d bytes kept %s bytes live (lexer buffer %s): more than one chunk or record"
                                   % (cid, o["mode"], o["chunks"], cb, o["peakgrowth"], o["lexbuf"]), rp)
     cov = summarize(rep, len(cases) + len(mcases), len(files),
-                    "files of 10-60 (thorough: -1000) chunks with overlap depth 1..8 built by the reference encoder; read in LogTime, Reverse and file order, with and without topic/time filters; the verif hook reports slots allocated and slots with unread messages after every Next; compared with the model's slot trace (maxima); oracle: slots <= max(1, max overlap of chunk ranges), 1 in file order; attachments of 1 KiB..64 MiB (thorough 256 MiB) generated on the fly through Writer.WriteAttachment (chunked/unchunked, CRC on/off), the lexer (callback reading the data, no callback on seekable and non-seekable sources) and GetAttachmentReader with cumulative allocation and heap growth <= 1 MiB; sequential lexer/scan reads of 48 (400) chunks with live heap growth (GC forced at every sample) <= 16 MiB + 3 chunks",
+                    "files of 10-60 (thorough: -150, plus 24 files of 400-1000 chunks decided by the oracle alone) chunks with overlap depth 1..8 built by the reference encoder; read in LogTime, Reverse and file order, with and without topic/time filters; the verif hook reports slots allocated and slots with unread messages after every Next; compared with the model's slot trace (maxima); oracle: slots <= max(1, max overlap of chunk ranges), 1 in file order; attachments of 1 KiB..64 MiB (thorough 256 MiB) generated on the fly through Writer.WriteAttachment (chunked/unchunked, CRC on/off), the lexer (callback reading the data, no callback on seekable and non-seekable sources) and GetAttachmentReader with cumulative allocation and heap growth <= 1 MiB; sequential lexer/scan reads of 48 (400) chunks with live heap growth (GC forced at every sample) <= 16 MiB + 3 chunks",
                     [cr.read_replay(c)[:5] for c in cases[:2]], dict(st, files=len(files), disagreements=nd))
     return cov, ["attachment streaming memory and real buffer sizes are measured at run time, not proved (partial)"]
 
